@@ -278,7 +278,10 @@ func (in *Interp) nodes(ns []Node, sb *strings.Builder, inLoop, inFn bool) (ctl,
 				return ctlNone, nil, errf("missing contentOf block %s", t.Name)
 			}
 			st := v.(*stored)
-			if st.def != in.sc {
+			if st.def != in.sc && !constBody(st.body) {
+				// whether a stored block sees the definition scope or the use
+				// scope is not fixed by the statements; a block of literal
+				// text renders the same under either reading
 				in.unspecified("contentOf used in another scope than its contentFor")
 				return ctlNone, nil, nil
 			}
@@ -294,6 +297,16 @@ func (in *Interp) nodes(ns []Node, sb *strings.Builder, inLoop, inFn bool) (ctl,
 		}
 	}
 	return ctlNone, nil, nil
+}
+
+// constBody reports whether a block consists of literal text only.
+func constBody(ns []Node) bool {
+	for _, n := range ns {
+		if _, ok := n.(Text); !ok {
+			return false
+		}
+	}
+	return true
 }
 
 // inChild renders body in a fresh child of parent extended with data (whose
